@@ -102,6 +102,11 @@ func mNoteText(n *mNote) string {
 			return `:skip /^` + regexp.QuoteMeta(dst) + `\./`
 		case "suffix":
 			return `:skip /(^|\.)` + regexp.QuoteMeta(dst) + `$/`
+		case "tail":
+			if strings.ContainsAny(dst, ".") {
+				core.Machinery("tail pattern with a dot: %s", dst)
+			}
+			return `:skip /` + regexp.QuoteMeta(dst) + `$/`
 		}
 		return ":skip " + dst
 	case "map":
